@@ -147,6 +147,17 @@ func manyChildrenProgram(r *h.RNG, n int) []byte {
 			a.Journal(h.VVJNAL, es, h.U(0), h.U(32), jTypU)
 		}
 	}
+	// members packed into ONE slot at different offsets: two top-level variables, and two members of a struct element
+	// of the mapping (children of one parent that share a slot)
+	a.MstoreName(memJ, []byte("pk_lo")).Journal(h.VSVJNAL, h.U(memJ), h.U(39), h.U(0), jTypP)
+	a.MstoreName(memJ, []byte("pk_hi")).Journal(h.VSVJNAL, h.U(memJ), h.U(39), h.U(16), jTypP)
+	{
+		es := jMapSlot(77, 23)
+		a.Journal(h.IVVVJNAL, h.U(23), es, h.U(77), h.U(0), jTypP, jTypMap)
+		a.Journal(h.IVVVJNAL, h.U(23), es, h.U(78), h.U(16), jTypP, jTypMap)
+		a.Push(new(uint256.Int).Lsh(h.U(uint64(1+r.Intn(5))), 128)).Push(es).Op(h.SSTORE)
+		a.Journal(h.VVJNAL, es, h.U(16), h.U(16), jTypP)
+	}
 	a.MstoreName(memJ, []byte("arr"))
 	a.Journal(h.RSVJNAL, h.U(memJ), h.U(24), jTypArr)
 	for i := 0; i < n; i++ {
@@ -351,6 +362,9 @@ func runC16(c Case, tier string) (res CaseResult) {
 			if k%2 == 1 {
 				// a read-only observer asks every query every few instructions while the transaction runs
 				every := 17 + k%29
+				if c.S == "children" {
+					every = 2 + k%7 // (registrations are a handful of instructions apart)
+				}
 				hook = func(fs *h.ForkSession) {
 					n := 0
 					fs.Rec.OnStep = func(e *h.Event, scope *avm.ScopeContext) {
